@@ -530,6 +530,14 @@ def handleValidate (j : Json) : R Json := do
         pure (Json.mkObj [("verdict", "rejected"), ("why", Json.str s!"input shapes {inShapes} differ from the expressions' shapes")])
       else if validateG planInstrX prog inShapes outs expected then
         pure (Json.mkObj [("verdict", "accepted"), ("mode", "syntactic"), ("instrs", jNat prog.length), ("prog", jArr (prog.map instrJson))])
+      else if family == "elementwise" && exprsIn.length ≥ 3 && (match exprsOut with
+          | [o] => (match denoteElementwise op exprsIn o with
+            | .ok t => validateG planInstrX prog inShapes outs [t]
+            | .error _ => false)
+          | _ => false) then
+        -- an n-ary operation lowered to one call with all operands (the einsum backend's `multiply`): the program
+        -- equals the documented flat form `f(in_1, …, in_n)` (`denoteElementwise`) instead of the left fold
+        pure (Json.mkObj [("verdict", "accepted"), ("mode", "flat-nary"), ("instrs", jNat prog.length), ("prog", jArr (prog.map instrJson))])
       else if family == "get_at" && validateArith planInstrX prog inShapes outs expected then
         -- index arithmetic in another association / order: equal modulo integer arithmetic (`validate_sound_arith`)
         pure (Json.mkObj [("verdict", "accepted"), ("mode", "arith"), ("instrs", jNat prog.length), ("prog", jArr (prog.map instrJson))])
